@@ -248,6 +248,38 @@ func Rem(a, b Dec) Dec {
 }
 
 // Equal is numeric equality of finite values.
+// RemFar is Rem for operands whose exponents may be astronomically far apart: the remainder of
+// truncated division, sign of the dividend, computed with modular arithmetic on the coefficients
+// (no alignment: 10^k mod m by repeated squaring).
+func RemFar(a, b Dec) Dec {
+	absLess := func() bool {
+		x, y := a, b
+		x.Neg, y.Neg = false, false
+		return x.Cmp(y) < 0
+	}
+	if a.C.Sign() == 0 {
+		return Dec{C: big.NewInt(0), E: a.E}
+	}
+	if absLess() {
+		return a
+	}
+	var r *big.Int
+	e := b.E
+	if a.E >= b.E {
+		m := b.C
+		p := new(big.Int).Exp(big.NewInt(10), big.NewInt(int64(a.E-b.E)), m)
+		r = new(big.Int).Mod(a.C, m)
+		r.Mul(r, p)
+		r.Mod(r, m)
+	} else {
+		// |a| >= |b| and a.E < b.E: b's coefficient scaled to a's exponent is no longer than a's
+		m := new(big.Int).Mul(b.C, pow10(b.E-a.E))
+		r = new(big.Int).Mod(a.C, m)
+		e = a.E
+	}
+	return Dec{Neg: a.Neg && r.Sign() != 0, C: r, E: e}
+}
+
 func (d Dec) Equal(o Dec) bool {
 	if !d.Finite() || !o.Finite() {
 		return d.NaN == o.NaN && d.Inf == o.Inf && (d.NaN || d.Neg == o.Neg)
